@@ -76,6 +76,9 @@ func (p Parser) Parse(src io.Reader) (f File) {
 
 		if decodeErr != nil {
 			f.Error = tryDecodingYamlError(decodeErr)
+			// The decoder stops reading where it fails, read the rest of the file
+			// so that comments and the number of lines don't depend on how far it got.
+			_, _ = io.Copy(io.Discard, cr)
 			return f
 		}
 		index++
